@@ -133,7 +133,16 @@ def instantiate(obl, defs=()):
     goal = skolemise(obl.goal) if z3.is_expr(obl.goal) else obl.goal
     hyp = list(obl.hyp)
     ground = [h for h in hyp if z3.is_expr(h)] + ([goal] if z3.is_expr(goal) else [])
-    eqs = unfold(ground, defs)
+    eqs, seen_eq = [], set()
+    frontier = ground
+    for _round in range(4):                      # definitions may mention other named functions: unfold those too
+        new = [e for e in unfold(frontier, defs) if e.get_id() not in seen_eq]
+        if not new:
+            break
+        for e in new:
+            seen_eq.add(e.get_id())
+        eqs += new
+        frontier = new
     hyp += eqs
     ground += eqs
     # two rounds: the commutativity instances introduce swapped applications
